@@ -1246,6 +1246,9 @@ func (x *Exec) matchEvent(sc *specCtx, f ast.Expr, ev *Event) Term {
 			// (structs held by value) by their address
 			var want Term
 			v := x.evalSpec(sc, ce.Args[1])
+			if isPoison(v) {
+				return tFalse // no event is on an object that does not exist on this path
+			}
 			if sv, ok := v.(Scalar); ok {
 				want = sv.T
 			} else if pv, ok := v.(PtrV); ok {
